@@ -155,6 +155,11 @@ def run_canary(pid, u, canary, workdir):
     if sem:
         return {'id': canary['id'], 'item': canary['item'], 'verdict': 'rejected',
                 'detail': sem[0]['obligation'], 'kind': canary['kind']}
+    rl = [f for f in fails if f['kind'] == 'rlimit']
+    if rl:
+        # the mutated function was NOT verified (solver gave up): counts as rejected, flagged as such
+        return {'id': canary['id'], 'item': canary['item'], 'verdict': 'rejected',
+                'detail': 'not verified: ' + rl[0]['obligation'], 'kind': canary['kind']}
     return {'id': canary['id'], 'item': canary['item'], 'verdict': 'SURVIVED', 'detail': ''}
 
 
